@@ -25,7 +25,14 @@ type primCond struct {
 	expr ast.Expr
 	val  bool
 	at   int // number of ops executed before the decision
+	// a decision taken inside a private predicate helper that was spliced in at its call
+	// (if !b.ensure(n) {...}): the call and the helper, to render expr in the caller's terms
+	inCall *ast.CallExpr
+	inDecl *ast.FuncDecl
 }
+
+// primLoaded gives the path enumeration access to the declarations of private helpers.
+var primLoaded *Loaded
 
 type primPath struct {
 	ops   []primOp
@@ -137,12 +144,40 @@ func primPaths(info *types.Info, body *ast.BlockStmt) (paths []primPath, ok bool
 					out = append(out, p)
 					continue
 				}
+				// A private predicate helper that did not exist in the pinned tree and whose
+				// every path returns a constant: its paths are spliced in, each continuing on
+				// the side its result selects.
+				if hp, neg, call, decl, spliced := splicePredicate(info, v.Cond); spliced {
+					for _, a := range call.Args {
+						addOps(&p, a, v, nil, nil)
+					}
+					for _, h := range hp {
+						q := p.clone()
+						for _, c := range h.conds {
+							c.at += len(q.ops)
+							if c.inCall == nil {
+								c.inCall, c.inDecl = call, decl
+							}
+							q.conds = append(q.conds, c)
+						}
+						q.ops = append(q.ops, h.ops...)
+						tv, _ := info.Types[h.ret.Results[0]]
+						if (tv.Value.String() == "true") != neg {
+							out = append(out, run(v.Body.List, []primPath{q})...)
+						} else if v.Else != nil {
+							out = append(out, stmt(v.Else, []primPath{q})...)
+						} else {
+							out = append(out, q)
+						}
+					}
+					continue
+				}
 				addOps(&p, v.Cond, v, nil, nil)
 				t := p.clone()
-				t.conds = append(t.conds, primCond{v.Cond, true, len(t.ops)})
+				t.conds = append(t.conds, primCond{expr: v.Cond, val: true, at: len(t.ops)})
 				out = append(out, run(v.Body.List, []primPath{t})...)
 				f := p.clone()
-				f.conds = append(f.conds, primCond{v.Cond, false, len(f.ops)})
+				f.conds = append(f.conds, primCond{expr: v.Cond, val: false, at: len(f.ops)})
 				if v.Else != nil {
 					out = append(out, stmt(v.Else, []primPath{f})...)
 				} else {
@@ -250,12 +285,64 @@ func (p primPath) decided(info *types.Info, obj types.Object) (val, found bool) 
 func (p primPath) atomDecided(res *resolver, info *types.Info, key string) (val, found bool) {
 	want := nospace(key)
 	for _, c := range p.conds {
-		k, pol := atomOf(res, info, nil, c.expr)
+		cres := res
+		if c.inCall != nil && primLoaded != nil {
+			cres = res.instantiate(c.inCall, c.inDecl, newResolver(primLoaded, info, c.inDecl))
+			cres.frame = "" // a predicate helper's conditions speak about its parameters only
+			cres.exprFuncs = res.exprFuncs
+		}
+		k, pol := atomOf(cres, info, nil, c.expr)
 		if nospace(k) == want {
 			return c.val == pol, true
 		}
 	}
 	return false, false
+}
+
+// splicePredicate: cond is h(args) or !h(args) for a helper h that may be spliced (see
+// primPaths); it returns h's paths, whether the call is negated, the call and h's declaration.
+func splicePredicate(info *types.Info, cond ast.Expr) (paths []primPath, neg bool, call *ast.CallExpr, decl *ast.FuncDecl, ok bool) {
+	if primLoaded == nil {
+		return
+	}
+	e := unparen(cond)
+	for {
+		u, isNot := e.(*ast.UnaryExpr)
+		if !isNot || u.Op != token.NOT {
+			break
+		}
+		neg = !neg
+		e = unparen(u.X)
+	}
+	c, isCall := e.(*ast.CallExpr)
+	if !isCall {
+		return
+	}
+	fi := primLoaded.FuncOf(callee(info, c))
+	if fi == nil || fi.Decl.Body == nil || pinnedFuncs[fi.Key] || fi.Obj.Exported() || fi.Pkg.TypesInfo != info {
+		return
+	}
+	sig := fi.Obj.Type().(*types.Signature)
+	if sig.Results().Len() != 1 {
+		return
+	}
+	if b, isB := sig.Results().At(0).Type().Underlying().(*types.Basic); !isB || b.Kind() != types.Bool {
+		return
+	}
+	hp, pok := primPaths(info, fi.Decl.Body)
+	if !pok || len(hp) == 0 || len(hp) > 8 {
+		return
+	}
+	for _, h := range hp {
+		if h.ret == nil || len(h.ret.Results) != 1 {
+			return
+		}
+		tv, has := info.Types[h.ret.Results[0]]
+		if !has || tv.Value == nil {
+			return
+		}
+	}
+	return hp, neg, c, fi.Decl, true
 }
 
 func (p primPath) opsWithKey(key string) []primOp {
